@@ -7,6 +7,9 @@ package main
 // Compared with the model (Tongo.Message), cells given as canonical tables (row 0 = the message / transaction cell):
 //   msg.hash <table>  -> ok <Hash(false)> <Hash(true)> <kind 0 int|1 ext-in|2 ext-out> <hash of Body.Value> | err
 //   tx.hash <table>   -> ok <Transaction.Hash()>
+//   msg.hash.hasher / tx.hash.hasher: the same through tlb.NewDecoder() (caching hasher); same model answer
+// Tables also come with one leaf replaced by a pruned-branch cell (level 1), so that the source cell has a level > 0
+// and the representation hash (level 3) differs from the level-0 hash.
 // Direct oracles on the implementation alone:
 //   go.msg.hash <table>        Hash(false) == Cell.Hash of the source, with and without a Hasher-carrying decoder, decoded
 //                              twice, and when the message sits in references of an enclosing record; non-ext-in:
@@ -33,13 +36,16 @@ import (
 
 func init() {
 	h.Register(&h.Prop{ID: "C16", Gen: genC16, Exec: withCells(map[string]h.ExecFn{
-		"msg.hash":       exMsgHash,
-		"tx.hash":        exTxHash,
-		"go.msg.hash":    goMsgHash,
-		"go.msg.norm_eq": func(a []string) string { return goMsgNormPair(a, true) },
-		"go.msg.norm_ne": func(a []string) string { return goMsgNormPair(a, false) },
-		"go.msg.canon":   goMsgCanon,
-		"go.tx.hash":     goTxHash,
+		"msg.hash":             func(a []string) string { return exMsgHash(a, false) },
+		"msg.hash.hasher":      func(a []string) string { return exMsgHash(a, true) },
+		"tx.hash":              func(a []string) string { return exTxHash(a, false) },
+		"tx.hash.hasher":       func(a []string) string { return exTxHash(a, true) },
+		"go.msg.shared_hasher": goMsgSharedHasher,
+		"go.msg.hash":          goMsgHash,
+		"go.msg.norm_eq":       func(a []string) string { return goMsgNormPair(a, true) },
+		"go.msg.norm_ne":       func(a []string) string { return goMsgNormPair(a, false) },
+		"go.msg.canon":         goMsgCanon,
+		"go.tx.hash":           goTxHash,
 	})})
 }
 
@@ -57,10 +63,17 @@ func msgKind(m *tlb.Message) int {
 	return 9
 }
 
-func exMsgHash(a []string) string {
+func unmarshalWith(hasher bool, c *boc.Cell, o any) error {
+	if hasher {
+		return tlb.NewDecoder().Unmarshal(c, o)
+	}
+	return tlb.Unmarshal(c, o)
+}
+
+func exMsgHash(a []string, hasher bool) string {
 	c := rootOf(a[0])
 	var m tlb.Message
-	if err := tlb.Unmarshal(c, &m); err != nil {
+	if err := unmarshalWith(hasher, c, &m); err != nil {
 		return "err"
 	}
 	h0 := m.Hash(false)
@@ -73,10 +86,10 @@ func exMsgHash(a []string) string {
 	return fmt.Sprintf("ok %x %x %d %x", h0[:], h1[:], msgKind(&m), bh)
 }
 
-func exTxHash(a []string) string {
+func exTxHash(a []string, hasher bool) string {
 	c := rootOf(a[0])
 	var tx tlb.Transaction
-	if err := tlb.Unmarshal(c, &tx); err != nil {
+	if err := unmarshalWith(hasher, c, &tx); err != nil {
 		return "err"
 	}
 	hs := tx.Hash()
@@ -182,6 +195,57 @@ func goMsgHash(a []string) string {
 	}
 	if msgKind(&m) != 1 && m.Hash(true) != h0 {
 		return "FAIL non-extin-normalised-differs"
+	}
+	return "ok"
+}
+
+// goMsgSharedHasher: ONE hasher-carrying decoder decodes several messages (each also twice, and all of them as
+// references of one enclosing record, so cells are shared between the cached trees); every reported hash must be the
+// Cell.Hash of its own source cell.
+func goMsgSharedHasher(a []string) string {
+	dec := tlb.NewDecoder()
+	var cells []*boc.Cell
+	var want [][]byte
+	for _, t := range a {
+		c := rootOf(t)
+		hs, err := rootOf(t).Hash()
+		if err != nil {
+			return "ok"
+		}
+		cells = append(cells, c)
+		want = append(want, hs)
+	}
+	for round := 0; round < 2; round++ {
+		for i, c := range cells {
+			var m tlb.Message
+			if err := dec.Unmarshal(c, &m); err != nil {
+				return "ok"
+			}
+			got := m.Hash(false)
+			if !bytes.Equal(got[:], want[i]) {
+				return fmt.Sprintf("FAIL shared-hasher round=%d msg=%d got=%x want=%x", round, i, got[:], want[i])
+			}
+		}
+	}
+	outer := boc.NewCell()
+	for i := 0; i < len(cells) && i < 4; i++ {
+		_ = outer.AddRef(cells[i])
+	}
+	for k := 0; k < len(cells) && k < 4; k++ {
+		outer.ResetCounters()
+		for j := 0; j <= k; j++ {
+			r, err := outer.NextRef()
+			if err != nil {
+				return "FAIL shared-hasher-nextref"
+			}
+			var m tlb.Message
+			if err := dec.Unmarshal(r, &m); err != nil {
+				return "FAIL shared-hasher-decode"
+			}
+			if got := m.Hash(false); !bytes.Equal(got[:], want[j]) {
+				return fmt.Sprintf("FAIL shared-hasher-enclosed msg=%d", j)
+			}
+		}
 	}
 	return "ok"
 }
@@ -301,7 +365,7 @@ func goTxHash(a []string) string {
 		if tx.Msgs.InMsg.Exists {
 			// the in-message is the first reference of the transaction's first reference
 			r0 := c.Refs()[0]
-			if len(r0.Refs()) > 0 {
+			if len(r0.Refs()) > 0 && r0.Refs()[0].CellType() == boc.OrdinaryCell { // a pruned in-message is skipped by the decoder
 				mh, _ := r0.Refs()[0].Hash()
 				got := tx.Msgs.InMsg.Value.Value.Hash(false)
 				if !bytes.Equal(mh, got[:]) {
@@ -634,6 +698,51 @@ func (c *c16Gen) message(kind int) synMsg {
 	return m
 }
 
+// withPruned replaces one leaf row (not the root) by a well-formed pruned-branch cell of level 1 (0x01, mask 0x01, a
+// 32-byte hash, a 2-byte depth) and propagates the level mask to every ordinary ancestor, so the root has level 1.
+// Returns nil when the table has no suitable leaf.
+func withPruned(g *h.G, t []h.Row) []h.Row {
+	var leaves []int
+	for i := 1; i < len(t); i++ {
+		if len(t[i].Refs) == 0 && t[i].Ty == 0 {
+			leaves = append(leaves, i)
+		}
+	}
+	if len(leaves) == 0 {
+		return nil
+	}
+	out := make([]h.Row, len(t))
+	copy(out, t)
+	k := leaves[g.Rng.Intn(len(leaves))]
+	data := append([]byte{0x01, 0x01}, g.Bytes(32)...)
+	data = append(data, 0, byte(g.Rng.Intn(6)))
+	out[k] = h.Row{Ty: 1, Mask: 1, BitLen: 288, Data: data}
+	for i := len(out) - 1; i >= 0; i-- {
+		if out[i].Ty != 0 {
+			continue
+		}
+		m := 0
+		for _, r := range out[i].Refs {
+			m |= out[r].Mask
+		}
+		out[i].Mask = m
+	}
+	if out[0].Mask == 0 {
+		return nil // the chosen leaf is not reachable from the root
+	}
+	return out
+}
+
+func safeMsg(t []h.Row) (ok bool) {
+	defer func() {
+		if recover() != nil {
+			ok = false
+		}
+	}()
+	var m tlb.Message
+	return tlb.Unmarshal(h.BuildCells(t)[0], &m) == nil
+}
+
 // fit: flips the body placement (and then drops the init) until the message fits into a cell
 func fit(m synMsg) (synMsg, []h.Row) {
 	if t := m.build(); t != nil {
@@ -651,10 +760,24 @@ func genC16(g *h.G) {
 	genPrim(g, "prim.sha256")
 	c := &c16Gen{g: g}
 	n := g.Scale(2500, 40000)
-	emitMsg := func(t []h.Row) {
-		ts := h.TableString(t)
+	var recent []string
+	emitOne := func(ts string) {
 		g.Emit("msg.hash", ts)
+		g.Emit("msg.hash.hasher", ts)
 		g.Emit("go.msg.hash", ts)
+		recent = append(recent, ts)
+		if len(recent) == 4 {
+			g.Emit("go.msg.shared_hasher", recent...)
+			recent = recent[:0]
+		}
+	}
+	emitMsg := func(t []h.Row) {
+		emitOne(h.TableString(t))
+		// the same message with a pruned branch somewhere below it: the source cell then has level 1
+		if pt := withPruned(g, t); pt != nil && safeMsg(pt) {
+			g.Count("msg_with_pruned_branch")
+			emitOne(h.TableString(pt))
+		}
 	}
 	for i := 0; i < n; i++ {
 		kind := i % 3
@@ -833,8 +956,18 @@ func (c *c16Gen) realBlocks() {
 			g.Count("real_tx_" + name)
 			ts := strings.Fields(h.Canon([]*boc.Cell{x}))[0]
 			g.Emit("tx.hash", ts)
+			g.Emit("tx.hash.hasher", ts)
 			g.Emit("go.tx.hash", ts)
 			g.NonTrivial(ts)
+			if pt := withPruned(g, h.ParseTable(ts)); pt != nil {
+				if pc := h.BuildCells(pt)[0]; safeTx(pc) != nil {
+					g.Count("real_tx_with_pruned_branch_" + name)
+					ps := h.TableString(pt)
+					g.Emit("tx.hash", ps)
+					g.Emit("tx.hash.hasher", ps)
+					g.Emit("go.tx.hash", ps)
+				}
+			}
 			// the messages: the first reference holds in_msg (a reference) and the out_msgs dictionary
 			x.ResetCounters()
 			txp := safeTx(x)
@@ -862,8 +995,16 @@ func (c *c16Gen) realBlocks() {
 					g.Count("real_msg_" + name)
 					mt := strings.Fields(h.Canon([]*boc.Cell{y}))[0]
 					g.Emit("msg.hash", mt)
+					g.Emit("msg.hash.hasher", mt)
 					g.Emit("go.msg.hash", mt)
 					g.Emit("go.msg.canon", mt)
+					if pt := withPruned(g, h.ParseTable(mt)); pt != nil && safeMsg(pt) {
+						g.Count("real_msg_with_pruned_branch_" + name)
+						ps := h.TableString(pt)
+						g.Emit("msg.hash", ps)
+						g.Emit("msg.hash.hasher", ps)
+						g.Emit("go.msg.hash", ps)
+					}
 					g.NonTrivial(mt)
 					delete(want, string(hs))
 					return
